@@ -197,4 +197,4 @@ Definition mpeg_p_of_list (l : list Z) : mpeg_p :=
   | [vb; lb; prot; bri; sri; pad; priv; mode; tail] => mkMpeg vb lb prot bri sri pad priv mode tail
   | _ => mkMpeg 0 0 0 0 0 0 0 0 0
   end.
-(* EXTRACT: build_mpeg_frame build_mpeg_header decode_mpeg_frame expected_mpeg mpeg_p_of_list *)
+(* EXTRACT: InfoMpeg.build_mpeg_frame InfoMpeg.build_mpeg_header InfoMpeg.decode_mpeg_frame InfoMpeg.expected_mpeg InfoMpeg.mpeg_p_of_list *)
